@@ -154,6 +154,7 @@ def run(ctx):
         if have_model:
             am = ctx.driver.run_parallel(lines_m)
         jobs, idx = [], []
+        raised = set()
         for i, ((inp, obj, envs), (out, r)) in enumerate(zip(cases, results)):
             key = out[0] if out[0] == 'ok' else out[1]
             outcomes[key] = outcomes.get(key, 0) + 1
@@ -168,8 +169,12 @@ def run(ctx):
                 elif out != m and not (out[0] == 'err' and m[0] == 'err' and out[1].split(':')[0] == m[1].split(':')[0]):
                     disagreements.append({'input': inp, 'impl': out, 'model': m})
             if out[0] != 'ok':
-                if out[1] not in ('zerodiv',):
-                    violations.append({'input': inp, 'impl': out, 'what': f'simplify raised {out[1]}', 'signature': 'raises:' + out[1]})
+                # allowed only for inputs with an identically-zero divisor or an undefined constant subexpression (e.g. int(""),
+                # (0 - 2) ** 0.5): the original must then be undefined under every valuation
+                raised.add(i)
+                for env in envs:
+                    jobs.append((env, [dump2(obj)]))
+                    idx.append(i)
                 continue
             w0, w1 = dump2(obj), dump2(r)
             if dumps(w0) != dumps(w1):
@@ -186,6 +191,13 @@ def run(ctx):
         flagged = set()
         for (env, items), res, i in zip(jobs, ev, idx):
             if i in flagged or res is None:
+                continue
+            if i in raised:
+                if res[0][0] == 'ok':
+                    flagged.add(i)
+                    violations.append({'input': cases[i][0], 'env': dumps(env), 'impl': results[i][0], 'original_value': res[0],
+                                       'what': f'simplify raised {results[i][0][1]} although the input evaluates without error on this valuation',
+                                       'signature': 'raises-on-defined-input'})
                 continue
             if res[0][0] == 'ok' and not same_value(res[0], res[1]):
                 flagged.add(i)
@@ -206,7 +218,7 @@ def run(ctx):
     }
 
 
-MODEL_READY = False
+MODEL_READY = True
 
 
 def matches_known(v, k):
